@@ -246,10 +246,11 @@ func (rt *runtime) cmplEvaluateNodeCallExpression(node *nodeCallExpression, with
 func (rt *runtime) cmplEvaluateNodeConditionalExpression(node *nodeConditionalExpression) Value {
 	test := rt.cmplEvaluateNodeExpression(node.test)
 	testValue := test.resolve()
+	// 11.12: the result is GetValue of the chosen operand, never a reference.
 	if testValue.bool() {
-		return rt.cmplEvaluateNodeExpression(node.consequent)
+		return rt.cmplEvaluateNodeExpression(node.consequent).resolve()
 	}
-	return rt.cmplEvaluateNodeExpression(node.alternate)
+	return rt.cmplEvaluateNodeExpression(node.alternate).resolve()
 }
 
 func (rt *runtime) cmplEvaluateNodeDotExpression(node *nodeDotExpression) Value {
